@@ -81,6 +81,14 @@ def callThisClash : Node → Bool
   | .call (.member (.member o _ _) (.pname _ _) _) (.arg none a :: _) _ => o.span == a.span || o.span.isDummy
   | _ => false
 
+/-- nodes the operation visitor rewrites -/
+def inertTNode : Node → Bool
+  | .bin .. | .assign .. | .tpl .. | .call .. | .optChain .. | .arrow .. => false
+  | _ => true
+
+/-- nothing in the tree is rewritten by the operation visitor (the quasis of a template literal) -/
+def inertT (n : Node) : Bool := Node.all inertTNode n
+
 def isArgN : Node → Bool
   | .arg .. => true
   | _ => false
@@ -96,6 +104,7 @@ def srcNode : Node → Bool
   | .call c as sp => !callThisClash (.call c as sp) && as.all isArgN
   | .optCall _ as _ => as.all isArgN
   | .array _ sp => !sp.isDummy
+  | .tpl _ qs _ => qs.all inertT
   | _ => true
 
 /-- the tree is a well-formed source tree -/
